@@ -134,7 +134,9 @@ def _entity(cls, text):
     from Bio.Seq import Seq
     from moclo.record import CircularRecord
 
-    return cls(CircularRecord(Seq(text), "fz"))
+    # record ids as labs write them, including characters that mean something to formatting routines
+    ids = ["fz", "fz", "pL0-{GFP}", "construct_{1}", "lib}2019", "{", "100%s", "50%", "two words", "", "{0.seq}", "\\N{DNA}"]
+    return cls(CircularRecord(Seq(text), ids[(len(text) * 31 + ord(text[0]) + ord(text[-1])) % len(ids)]))
 
 
 def probe(ctx, cls, text, mode):
